@@ -7,9 +7,19 @@ Relations
   norep  : output_vcf(no_replacement=True) end to end on panels in which every reference haplotype
            carries a unique allele at every variant (provenance readable from the output), with
            np.random.shuffle recorded; exhaustion of the panel must raise
-  params : validate_params with --no_replacement on panels with too few samples per population
+  params : validate_params with --no_replacement on panels with n-1 / n / n+1 sample-info lines per model
+           population (first / middle / last in the header), population labels in every string relation to one
+           another (one a proper prefix / suffix / infix of another, case-only difference, common prefix or suffix,
+           same characters, digits only, '_', '-', '.'), unused populations whose labels contain a model label,
+           sample names that contain or equal population labels, lines in any order; the model counts by label
+           EQUALITY; holds = rejected when some population is short, the not-enough-samples error only then
+  cli    : the simgenotype command end to end with --no_replacement on such panels (identifiable alleles):
+           a short population must stop the command in validate_params before simulate_gt is entered and before
+           any file exists; otherwise the output_vcf call it makes (breakpoints as handed over, shuffles
+           recorded) is checked against C03's model and the no-reuse checker
 """
 import itertools
+import os
 
 import numpy as np
 
@@ -50,11 +60,20 @@ RULE = (
     "nested, overlapping and abutting (shared end point, end+1) intervals are frequent; non-trivial = some call "
     "meets a registered interval of the same chromosome on a probed reference haplotype. norep: output_vcf with "
     "no_replacement on identifiable panels; non-trivial = two simulated haplotypes carry blocks of the same "
-    "population on the same chromosome whose intervals share a position. Distinct = distinct canonical JSON."
+    "population on the same chromosome whose intervals share a position. params: 2-4 model populations x 0-3 unused "
+    "ones, labels derived from one another by 13 string relations, 1-4 simulated samples, counts n-1/n/n+1; non-trivial "
+    "= --no_replacement, some model population has n-1 or n lines and some other label of the file stands in a "
+    "containment / case / shared-affix relation to a model label. cli: the command on 2-3 populations, 1-3 samples, 1-2 "
+    "chromosomes, 1-3 model lines; non-trivial = --no_replacement and some population has n-1 or n lines. "
+    "Distinct = distinct canonical JSON."
 )
 TRUSTED = [
     "np.random.shuffle results are recorded, not modelled (universally quantified in the theorems)",
     "chromosome names / sample names are interned to integers by the harness (only compared by the code)",
+    "population labels are interned by python string equality (dict): two labels get one number iff they are the same "
+    "string; the model of validate_params counts over these numbers",
+    "cli: sim_genotype.{validate_params,simulate_gt,write_breakpoints,output_vcf} are wrapped from the harness to record "
+    "verdict / entry / arguments; the command itself runs unmodified through click's CliRunner",
 ]
 ASSUMPTIONS = [
     "theorems: every sample index handed to _find_random_sample addresses rows of haps_used (validate_params "
@@ -267,6 +286,75 @@ class Kernel(Relation):
         return "kernel reference haplotype handed out twice: " + (",".join(sorted(kinds)) or "none (model disagreement)")
 
 
+def model_labels(inp):
+    """header labels of an output_vcf case: 'Admixed' + the case's labels (default P1..Pk as in C03)"""
+    k = inp["npop"] - 1
+    labs = inp.get("labels") or [f"P{i}" for i in range(1, k + 1)] + ["OTHER"]
+    return ["Admixed"] + list(labs[:k]), list(labs[k:]) or ["OTHER"]
+
+
+def run_output_vcf_labeled(inp):
+    """c03.run_output_vcf with the case's own population labels in the model header and the sample-info file
+    (C03 always writes P1..Pk); the model works on label numbers, so the case term is C03's."""
+    import shutil
+    import tempfile
+
+    from haptools.admix_storage import HaplotypeSegment as S
+    from haptools.logging import getLogger
+    import haptools.sim_genotype as sg
+    from . import c03
+
+    d = tempfile.mkdtemp(prefix="hv_c14n_")
+    rec = None
+    try:
+        panel, recs = c03.write_panel(inp, d)
+        pops, unused = model_labels(inp)
+        model = os.path.join(d, "model.dat")
+        with open(model, "w") as f:
+            f.write(f"{len(inp['bps']) // 2}\t" + "\t".join(pops) + "\n1\t0\t" +
+                    "\t".join(["1"] + ["0"] * (len(pops) - 2)) + "\n")
+        info = os.path.join(d, "info.tab")
+        with open(info, "w") as f:
+            for s_, p in inp["info"]:
+                f.write(f"{c03.info_name(s_)}\t{pops[p] if p < len(pops) else unused[(p - len(pops)) % len(unused)]}\n")
+        bps = [[S(int(t[0]), int(t[1]), int(t[2]), float(t[3])) for t in hap] for hap in inp["bps"]]
+        out = os.path.join(d, "out." + inp["out"])
+        region = None
+        if inp.get("region"):
+            g = inp["region"]
+            region = {"chr": c03.chrom_str(g[0]), "start": int(g[1]), "end": int(g[2])}
+        log = getLogger("hv", "CRITICAL")
+        np.random.seed(inp["seed"])
+        rec = c03.DrawRecorder()
+        try:
+            try:
+                sg.output_vcf(bps, [c03.chrom_str(c) for c in inp["chroms"]], model, panel, info, region,
+                              bool(inp["pop_field"]), bool(inp["sample_field"]), bool(inp["norep"]), out, log)
+                err = None
+            except Exception as e:  # noqa
+                err = {"err": err_kind(e), "cls": type(e).__name__, "msg": str(e)[:200]}
+        finally:
+            rec.close()
+        draws = shuffle_draws(rec, inp["ref"]["nref"])
+        if err is not None:
+            return {"failed": err, "draws": draws}
+        return {"out": c03.read_output(out, inp, recs, pops), "draws": draws}
+    finally:
+        if rec is not None:
+            rec.close()
+        shutil.rmtree(d, ignore_errors=True)
+
+
+def shuffle_draws(rec, nref):
+    smap = {f"R{i}": i for i in range(nref)}
+    return {
+        "choice": rec.choice,
+        "strand": rec.strand,
+        "shuffle": [[smap.get(x, -int(x[6:]) if x.startswith("absent") else -99) for x in l] for l in rec.shuffle],
+        "ok": rec.ok,
+    }
+
+
 class Norep(Relation):
     """output_vcf(no_replacement=True) end to end; case type, runner and model are C03's."""
     name = "norep"
@@ -294,13 +382,14 @@ class Norep(Relation):
         while len(out) < n:
             c = c03.gen_case(rng, tier, want_norep=True)
             if c03.covered(c):
+                # population labels in every string relation to one another (nested, case, digits ...);
+                # the last one labels the sample-info lines of the unused population
+                c["labels"], _ = gen_labels(rng, c["npop"] - 1, 1)
                 out.append(c)
         return out
 
     def run_impl(self, inp):
-        from . import c03
-
-        return c03.run_output_vcf(inp)
+        return run_output_vcf_labeled(inp)
 
     def encode(self, inp, obs):
         from . import c03
@@ -362,107 +451,731 @@ class Norep(Relation):
                            else "no duplicate provenance (model disagreement)")
 
 
+# ---- population labels in every string relation to one another ------------------------------------
+
+LABEL_BASES = ["EUR", "AFR", "CEU", "YRI", "POP1", "AMR", "A", "pop", "Han", "x", "1", "10", "7", "2024", "EAS.N", "S-AS",
+               "AFR_W", "Admix"]
+LABEL_RELATIONS = ["extends", "prefixed", "infix", "truncated", "tail", "case", "sibling-prefix", "sibling-suffix",
+                   "reversed", "doubled", "punctuated", "digits", "fresh"]
+
+
+def related_label(rng, a, kind):
+    """A label standing in the string relation `kind` to label a (None when a does not admit it)."""
+    pick = lambda xs: str(xs[int(rng.integers(0, len(xs)))])
+    if kind == "extends":          # a is a proper prefix of the new label (POP1 / POP10, EUR / EUR_S)
+        return a + pick(["0", "1", "_S", "-N", ".1", "x", "S", "_", "10"])
+    if kind == "prefixed":         # a is a proper suffix of the new label (AFR / xAFR)
+        return pick(["x", "N_", "S-", "1", "0", ".", "_", "sub"]) + a
+    if kind == "infix":            # a strictly inside the new label
+        return pick(["x", "N_", "1", "."]) + a + pick(["0", "_S", "x", "-2"])
+    if kind == "truncated":        # the new label is a proper prefix of a
+        return a[:-1] if len(a) > 1 else None
+    if kind == "tail":             # the new label is a proper suffix of a
+        return a[1:] if len(a) > 1 else None
+    if kind == "case":             # differs only in case
+        for b in (a.swapcase(), a.lower(), a.upper(), a.capitalize()):
+            if b != a:
+                return b
+        return None
+    if kind == "sibling-prefix":   # common prefix, neither contains the other (EUR_N / EUR_S)
+        return a[:-1] + ("S" if a[-1] != "S" else "N") if len(a) > 1 else None
+    if kind == "sibling-suffix":   # common suffix, neither contains the other (N_EUR / S_EUR)
+        return ("S" if a[0] != "S" else "N") + a[1:] if len(a) > 1 else None
+    if kind == "reversed":         # same characters, other order
+        return a[::-1] if a[::-1] != a else None
+    if kind == "doubled":
+        return a + a
+    if kind == "punctuated":
+        return a + pick(["_", "-", "."]) + pick(["1", "2", "N", "a"])
+    if kind == "digits":
+        return pick(["1", "10", "01", "100", "11", "2", "12", "21", "0"])
+    return pick(LABEL_BASES)
+
+
+def gen_labels(rng, k, nother):
+    """k distinct model labels and nother further (unused) labels, each new one in a random string relation
+    to an earlier one. Returns (labels, relation kinds); labels[:k] are the model's, in header order."""
+    labels, kinds = [str(LABEL_BASES[int(rng.integers(0, len(LABEL_BASES)))])], ["base"]
+    tries = 0
+    while len(labels) < k + nother and tries < 200:
+        tries += 1
+        a = labels[int(rng.integers(0, len(labels)))]
+        kind = LABEL_RELATIONS[int(rng.integers(0, len(LABEL_RELATIONS)))]
+        b = related_label(rng, a, kind)
+        if not b or b in labels or b == "Admixed" or not any(ch.isalnum() for ch in b):
+            continue                      # (a bare "." would read back as a missing POP value)
+        labels.append(b)
+        kinds.append(kind)
+    while len(labels) < k + nother:
+        labels.append(f"Q{len(labels)}")
+        kinds.append("fresh")
+    # the header order is independent of the order of derivation
+    order = [int(x) for x in rng.permutation(k)]
+    return [labels[i] for i in order] + labels[k:], [kinds[i] for i in order] + kinds[k:]
+
+
+def string_relations(a, b):
+    """semantic relation classes between two distinct labels a, b (computed, not generator labels)"""
+    out = set()
+    if a == b:
+        return {"same-label"}
+    for x, y, tag in ((a, b, ""), (b, a, "")):
+        if y.startswith(x):
+            out.add("proper-prefix")
+        elif y.endswith(x):
+            out.add("proper-suffix")
+        elif x in y:
+            out.add("proper-infix")
+    if a.lower() == b.lower():
+        out.add("case-only")
+    if not out:
+        if a[0] == b[0]:
+            out.add("common-prefix")
+        if a[-1] == b[-1]:
+            out.add("common-suffix")
+        if sorted(a) == sorted(b):
+            out.add("same-characters")
+    if a.isdigit() and b.isdigit():
+        out.add("digits-only")
+    if any(ch in "_-." for ch in a + b):
+        out.add("punctuation")
+    return out or {"unrelated"}
+
+
+def label_ids(pops):
+    """string -> number, by string equality; 'Admixed' (the header's first label) = 0, the model's labels 1.."""
+    ids = {}
+    for p in ["Admixed"] + list(pops):
+        ids.setdefault(p, len(ids))
+    return ids
+
+
+def info_counts(pops, info):
+    """per model population (header order): number of sample-info lines carrying exactly its label"""
+    return [sum(1 for _, lab in info if lab == p) for p in pops]
+
+
+def classify_error(e):
+    """verdict class of a validate_params exception and the population its message names"""
+    import re
+
+    msg = str(e)
+    for cls, pat in ((1, r"from population (\S+) in sampleinfo file is not present in the vcf file"),
+                     (2, r"Population (\S+) in model file is not present in the sample info file"),
+                     (3, r"Population (\S+) does not have enough samples to sample without replacement")):
+        m = re.search(pat, msg)
+        if m:
+            return {"cls": cls, "pop": m.group(1), "type": type(e).__name__, "msg": msg[:200]}
+    return {"cls": 9, "pop": None, "type": type(e).__name__, "msg": msg[:200]}
+
+
+def verdict_term(v, ids):
+    if not isinstance(v, dict) or "cls" not in v:
+        return "(9, 0)"
+    pop = 0 if v.get("pop") is None else ids.get(v["pop"], -1)
+    return f"({L.z(v['cls'])}, {L.z(pop)})"
+
+
+def pcase_term(ns, norep, pops, info, panel, verdict):
+    """info: [[sample name, label]] in file order; panel: sample names of the reference"""
+    ids = label_ids(pops)
+    for _, lab in info:
+        ids.setdefault(lab, len(ids))
+    pidx = {}
+    for i, nm in enumerate(panel):
+        pidx.setdefault(nm, i)
+    absent = {}
+    rows = []
+    for nm, lab in info:
+        s = pidx[nm] if nm in pidx else -absent.setdefault(nm, len(absent) + 1)
+        rows.append(f"({L.z(s)}, {L.z(ids[lab])})")
+    hdr = [0] + [ids[p] for p in pops]
+    return f"(mkp {L.z(ns)} {L.b(norep)} {L.zl(hdr)} {L.lst(rows)} {verdict_term(verdict, ids)})"
+
+
+def write_named_panel(d, names, pgen=False):
+    """a one-variant biallelic reference with the given sample names (all that validate_params reads)"""
+    if pgen:
+        import pgenlib
+
+        base = os.path.join(d, "panel")
+        with open(base + ".psam", "w") as f:
+            f.write("#IID\n" + "".join(nm + "\n" for nm in names))
+        with open(base + ".pvar", "w") as f:
+            f.write("#CHROM\tPOS\tID\tREF\tALT\n1\t10\tv0\tA\tC\n")
+        with pgenlib.PgenWriter(base.encode() + b".pgen", len(names), variant_ct=1, nonref_flags=False,
+                                hardcall_phase_present=True) as w:
+            w.append_alleles(np.array([a for _ in names for a in (0, 1)], dtype=np.int32), all_phased=True)
+        return base + ".pgen"
+    path = os.path.join(d, "panel.vcf")
+    with open(path, "w") as f:
+        f.write("##fileformat=VCFv4.2\n##contig=<ID=1>\n"
+                '##FORMAT=<ID=GT,Number=1,Type=String,Description="Genotype">\n')
+        f.write("#CHROM\tPOS\tID\tREF\tALT\tQUAL\tFILTER\tINFO\tFORMAT\t" + "\t".join(names) + "\n")
+        f.write("1\t10\tv0\tA\tC\t.\t.\t.\tGT\t" + "\t".join("0|1" for _ in names) + "\n")
+    return path
+
+
+def deficient_positions(ns, pops, info):
+    """header positions (first / middle / last) of the model populations with fewer lines than ns"""
+    out = set()
+    for j, c in enumerate(info_counts(pops, info)):
+        if c < ns:
+            out.add("first" if j == 0 else "last" if j == len(pops) - 1 else "middle")
+    return out
+
+
+def covered_by_containing_label(ns, pops, info):
+    """some model population is short by equality but the lines of all labels CONTAINING its label
+    (as a substring, in either case) would suffice - the panels a coarser comparison wrongly accepts"""
+    for p, c in zip(pops, info_counts(pops, info)):
+        if c < ns and sum(1 for _, lab in info if p.lower() in lab.lower()) >= ns:
+            return True
+    return False
+
+
 class Params(Relation):
-    """validate_params: --no_replacement needs >= num_samples sample-info lines per model population."""
+    """validate_params: --no_replacement needs >= num_samples sample-info lines per model population,
+    a line counting for a population iff its label IS the population's label."""
     name = "params"
     coq_module = "C14_CheckVcf"
     coq_check = "check_params"
     coq_case_type = "pcase"
     coq_model = "model_params"
     coq_imports = ["Tracts", "C01_Model", "C14_Model", "C03_Model", "C03_Check"]
-    budget = {"quick": 150, "thorough": 1500}
+    budget = {"quick": 320, "thorough": 4000}
     anchors = [("haptools/sim_genotype.py", "validate_params")]
 
+    @staticmethod
+    def sample_names(rng, labels, own, total):
+        """total distinct sample names; style per sample: plain, built from its own / another population's
+        label, exactly another label, digits only"""
+        names, used = [], set()
+        for i in range(total):
+            lab = own[i] if i < len(own) else labels[int(rng.integers(0, len(labels)))]
+            other = labels[int(rng.integers(0, len(labels)))]
+            r = rng.random()
+            if r < 0.35:
+                nm = f"R{i}"
+            elif r < 0.5:
+                nm = f"{lab}{i}"
+            elif r < 0.62:
+                nm = f"{other}_{i}"
+            elif r < 0.72:
+                nm = other              # a sample called like a population
+            elif r < 0.8:
+                nm = str(i)
+            elif r < 0.9:
+                nm = f"{i}{other}"
+            else:
+                nm = f"HG{i:05d}"
+            while nm in used or nm == "":
+                nm = f"{nm}.{i}"
+            used.add(nm)
+            names.append(nm)
+        return names
+
+    def one(self, rng, force_norep=None):
+        k = int(rng.integers(2, 5))               # validate_params wants at least two source populations
+        nother = int(rng.choice([0, 1, 1, 2, 3]))
+        labels, kinds = gen_labels(rng, k, nother)
+        pops = labels[:k]
+        ns = int(rng.integers(1, 5))
+        norep = bool(rng.random() < 0.8) if force_norep is None else force_norep
+        # counts around the number of simulated samples for every model population; one designated
+        # population (first / middle / last) sits at n-1 in a third of the cases
+        counts = [int(rng.choice([ns - 1, ns, ns + 1, ns, ns + 1, 1, ns + 2])) for _ in range(k)]
+        if rng.random() < 0.35:
+            counts = [max(ns, c) for c in counts]
+            counts[int(rng.integers(0, k))] = ns - 1
+        counts = [max(0, c) for c in counts]
+        if rng.random() < 0.85:
+            counts = [max(1, c) for c in counts]
+        ocounts = [int(rng.choice([0, 1, ns - 1, ns, ns + 1])) for _ in range(nother)]
+        ocounts = [max(0, c) for c in ocounts]
+        own = [lab for lab, c in zip(labels, counts + ocounts) for _ in range(c)]
+        if rng.random() < 0.05:
+            own.append("Admixed")
+        extra = int(rng.choice([0, 0, 1, 2]))      # panel samples the sample-info file does not list
+        names = self.sample_names(rng, labels, own, len(own) + extra)
+        info = [[nm, lab] for nm, lab in zip(names, own)]
+        order = rng.random()
+        if order < 0.6:
+            info = [info[i] for i in rng.permutation(len(info))]
+        elif order < 0.75:
+            info = info[::-1]
+        panel = [names[i] for i in rng.permutation(len(names))] if rng.random() < 0.7 else list(names)
+        kind = "wellformed"
+        m = rng.random()
+        if m < 0.06 and info:
+            # a listed sample the panel lacks (its name extends / truncates a panel name)
+            j = int(rng.integers(0, len(info)))
+            nm = info[j][0]
+            for cand in (nm + "0", nm[:-1], "absent" + nm):
+                if cand and cand not in names:
+                    info[j] = [cand, info[j][1]]
+                    break
+            kind = "sample-not-in-panel"
+        elif m < 0.09:
+            # the model header names a population twice
+            pops = pops[:-1] + [pops[0]]
+            info = [r for r in info if r[1] != labels[k - 1]] if rng.random() < 0.5 else info
+            kind = "header-label-twice"
+        sep = str(rng.choice(["\t", "\t", " ", "  ", " \t"]))
+        return {"ns": ns, "norep": norep, "pgen": bool(rng.random() < 0.12), "pops": pops, "info": info, "panel": panel,
+                "sep": sep, "kinds": sorted(set(kinds) - {"base"}), "kind": kind}
+
     def generate(self, rng, n, tier):
-        out = []
-        for _ in range(n):
-            k = int(rng.integers(2, 5))       # validate_params wants at least two source populations
-            ns = int(rng.integers(1, 5))
-            counts = [int(rng.choice([0, ns - 1, ns, ns + 1, 1, 5])) for _ in range(k)]
-            counts = [max(0, c) for c in counts]
-            if rng.random() < 0.8:
-                counts = [max(1, c) for c in counts]
-            out.append({"ns": ns, "counts": counts, "other": int(rng.integers(0, 3)), "norep": bool(rng.random() < 0.7),
-                        "pgen": bool(rng.random() < 0.2)})
-        return out
+        return [self.one(rng) for _ in range(n)]
+
+    # label pairs (a, b) with every string relation; the grid puts n-1 / n / n+1 lines on each
+    PAIRS = [("CEU", "YRI"), ("EUR", "EUR_S"), ("POP1", "POP10"), ("AFR", "xAFR"), ("MR", "AMR1"), ("eur", "EUR"),
+             ("Eur", "EUR"), ("EUR_N", "EUR_S"), ("N-EUR", "S-EUR"), ("1", "10"), ("1", "01"), ("12", "21"),
+             ("A", "AA"), ("A.1", "A"), ("A", "B"), ("Admixed1", "Admix"), ("ABC", "CBA"), ("p", "pop")]
 
     def exhaustive(self, tier):
-        import itertools
-
         out = []
-        for ns in (1, 2, 3):
-            for counts in itertools.product([1, 2, 3, 4], repeat=2):
-                for norep in (False, True):
-                    out.append({"ns": ns, "counts": list(counts), "other": 1, "norep": norep, "pgen": False})
+        for a, b in self.PAIRS:
+            for pops in ([a, b], [b, a]):
+                for ns in (1, 2, 3):
+                    for ca, cb in itertools.product((ns - 1, ns, ns + 1), repeat=2):
+                        if min(ca, cb) < 1:
+                            continue
+                        for norep in (True, False) if (ca, cb) == (ns - 1, ns + 1) else (True,):
+                            own = [pops[0]] * ca + [pops[1]] * cb
+                            names = [f"R{i}" for i in range(len(own))]
+                            out.append({"ns": ns, "norep": norep, "pgen": False, "pops": pops,
+                                        "info": [[nm, lab] for nm, lab in zip(names, own)], "panel": names,
+                                        "sep": "\t", "kinds": [], "kind": "grid"})
+        # three populations, the short one first / middle / last, an unused population whose label extends it
+        for pos in range(3):
+            for short, longer in (("EUR", "EUR_S"), ("POP1", "POP10"), ("AFR", "xAFR"), ("afr", "AFR")):
+                for where in ("model", "unused"):
+                    for ns in (2, 3):
+                        pops = ["CEU", "YRI", "GBR"]
+                        pops[pos] = short
+                        if where == "model":
+                            pops[(pos + 1) % 3] = longer
+                        own = []
+                        for p in pops:
+                            own += [p] * (ns - 1 if p == short else ns)
+                        if where == "unused":
+                            own += [longer] * ns
+                        names = [f"R{i}" for i in range(len(own))]
+                        out.append({"ns": ns, "norep": True, "pgen": False, "pops": pops,
+                                    "info": [[nm, lab] for nm, lab in zip(names, own)], "panel": names,
+                                    "sep": "\t", "kinds": [], "kind": "grid"})
         return out
 
     def run_impl(self, inp):
-        import os
         import shutil
         import tempfile
 
         import haptools.sim_genotype as sg
-        from . import c03
 
         d = tempfile.mkdtemp(prefix="hv_c14p_")
         try:
-            k = len(inp["counts"])
-            nref = sum(inp["counts"]) + inp["other"] + 1
-            panel_inp = {"ref": {"nref": nref, "vars": [[False, 1, 10]], "nalleles": [2],
-                                 "data": [[[0, 1]] for _ in range(nref)], "fmt": "pgen" if inp["pgen"] else "vcf.gz"}}
-            panel, _ = c03.write_panel(panel_inp, d)
-            pops = [f"P{i + 1}" for i in range(k)]
+            panel = write_named_panel(d, inp["panel"], inp["pgen"])
+            pops = inp["pops"]
+            k = len(pops)
             model = os.path.join(d, "model.dat")
             with open(model, "w") as f:
                 f.write(f"{inp['ns']}\tAdmixed\t" + "\t".join(pops) + "\n1\t0\t" + "\t".join(["1"] + ["0"] * (k - 1)) + "\n")
             info = os.path.join(d, "info.tab")
-            r = 0
             with open(info, "w") as f:
-                for p, c in zip(pops, inp["counts"]):
-                    for _ in range(c):
-                        f.write(f"R{r}\t{p}\n")
-                        r += 1
-                for _ in range(inp["other"]):
-                    f.write(f"R{r}\tOTHER\n")
-                    r += 1
+                for nm, lab in inp["info"]:
+                    f.write(f"{nm}{inp['sep']}{lab}\n")
             mapdir = os.path.join(d, "map")
             os.makedirs(mapdir)
             with open(os.path.join(mapdir, "g.chr1.map"), "w") as f:
                 f.write("1\t.\t0.0\t5\n1\t.\t1.0\t50\n")
             try:
                 sg.validate_params(model, mapdir, ["1"], 10, panel, info, inp["norep"])
-                return {"raised": False}
+                return {"cls": 0, "pop": None}
             except Exception as e:  # noqa
-                return {"raised": True, "cls": type(e).__name__, "msg": str(e)[:160]}
+                return classify_error(e)
         finally:
             shutil.rmtree(d, ignore_errors=True)
 
     def encode(self, inp, obs):
-        raised = obs.get("raised")
-        if raised is None:
-            raised = True if "__exc__" in obs else False
-        return f"(mkp {L.z(inp['ns'])} {L.b(inp['norep'])} {L.zl(inp['counts'])} {L.b(raised)})"
+        return pcase_term(inp["ns"], inp["norep"], inp["pops"], inp["info"], inp["panel"], obs)
+
+    @staticmethod
+    def _pair_relations(inp):
+        labs = list(dict.fromkeys(list(inp["pops"]) + [lab for _, lab in inp["info"]]))
+        out = set()
+        for p in inp["pops"]:
+            for q in labs:
+                if q != p:
+                    out |= string_relations(p, q)
+        return out
 
     def nontrivial(self, inp, obs):
-        return inp["norep"] and any(c in (inp["ns"] - 1, inp["ns"]) for c in inp["counts"])
+        rel = self._pair_relations(inp) - {"unrelated", "punctuation", "digits-only"}
+        near = any(c in (inp["ns"] - 1, inp["ns"]) for c in info_counts(inp["pops"], inp["info"]))
+        return bool(inp["norep"] and near and rel)
 
     def classes(self, inp, obs):
-        out = ["norep" if inp["norep"] else "replacement", "pgen" if inp["pgen"] else "vcf"]
-        if any(c < inp["ns"] for c in inp["counts"]):
-            out.append("too-few-samples-in-a-population")
-        if any(c == inp["ns"] for c in inp["counts"]):
+        out = ["norep" if inp["norep"] else "replacement", "pgen" if inp["pgen"] else "vcf", inp["kind"]]
+        out += ["labels:" + r for r in sorted(self._pair_relations(inp))]
+        counts = info_counts(inp["pops"], inp["info"])
+        if inp["norep"]:
+            out += ["short-population-" + w for w in sorted(deficient_positions(inp["ns"], inp["pops"], inp["info"]))]
+            if covered_by_containing_label(inp["ns"], inp["pops"], inp["info"]):
+                out.append("short-but-containing-labels-suffice")
+        if any(c == inp["ns"] for c in counts):
             out.append("exactly-enough")
-        if obs.get("raised"):
-            out.append("rejected")
+        labs = set(lab for _, lab in inp["info"])
+        if any(nm in labs or any(p in nm for p in inp["pops"]) for nm, _ in inp["info"]):
+            out.append("sample-name-contains-a-label")
+        if isinstance(obs, dict) and "cls" in obs:
+            out.append(f"verdict-{obs['cls']}")
         return out
 
     def shrink(self, inp):
-        if len(inp["counts"]) > 2:
-            for j in range(len(inp["counts"])):
-                yield dict(inp, counts=inp["counts"][:j] + inp["counts"][j + 1:])
+        pops, info = inp["pops"], inp["info"]
+        if len(pops) > 2:
+            for j in range(len(pops)):
+                yield dict(inp, pops=pops[:j] + pops[j + 1:], info=[r for r in info if r[1] != pops[j]])
+        unused = sorted(set(lab for _, lab in info) - set(pops))
+        for u in unused:
+            yield dict(inp, info=[r for r in info if r[1] != u])
+        canon_names = {nm: f"R{i}" for i, nm in enumerate(inp["panel"])}
+        if any(k != v for k, v in canon_names.items()) and all(nm in canon_names for nm, _ in info):
+            yield dict(inp, panel=[canon_names[nm] for nm in inp["panel"]],
+                       info=[[canon_names[nm], lab] for nm, lab in info], sep="\t")
+        listed = set(nm for nm, _ in info)
+        if any(nm not in listed for nm in inp["panel"]):
+            yield dict(inp, panel=[nm for nm in inp["panel"] if nm in listed])
+        if inp["ns"] > 1:
+            # one simulated sample less and one line less per label
+            seen, keep = set(), []
+            for r in info:
+                if r[1] in seen:
+                    keep.append(r)
+                seen.add(r[1])
+            yield dict(inp, ns=inp["ns"] - 1, info=keep)
+        for j in range(len(info)):
+            yield dict(inp, info=info[:j] + info[j + 1:])
+
+    def mutate(self, inp, rng):
+        # move every model population's count to n-1 / n in turn, add lines of labels related to it
+        for p in inp["pops"]:
+            lines = [r for r in inp["info"] if r[1] == p]
+            if len(lines) >= inp["ns"] and inp["ns"] >= 1:
+                drop = set(nm for nm, _ in lines[inp["ns"] - 1:])
+                yield dict(inp, norep=True, info=[r for r in inp["info"] if r[0] not in drop])
+            for kind in ("extends", "prefixed", "case", "infix"):
+                q = related_label(rng, p, kind)
+                if q and q not in inp["pops"] and q != "Admixed":
+                    add = [[f"M{len(inp['panel']) + i}", q] for i in range(inp["ns"] + 1)]
+                    short = [r for r in inp["info"] if r[1] != p] + lines[:max(1, inp["ns"] - 1)]
+                    yield dict(inp, norep=True, info=short + add, panel=inp["panel"] + [a[0] for a in add])
 
     def signature(self, inp, obs):
-        return "params validate_params accepts --no_replacement with fewer samples in a population than simulated samples"
+        cls = obs.get("cls") if isinstance(obs, dict) else None
+        short = inp["norep"] and any(c < inp["ns"] for c in info_counts(inp["pops"], inp["info"]))
+        if short and cls == 0:
+            return "params validate_params accepts --no_replacement with fewer samples in a population than simulated samples"
+        if cls == 3 and not short:
+            return "params validate_params reports too few samples for a panel that has enough in every population"
+        return "params verdict differs from the model (no clause of the property broken)"
+
+
+class Cli(Relation):
+    """The simgenotype command with --no_replacement, end to end: validate_params -> simulate_gt ->
+    write_breakpoints -> output_vcf on identifiable panels whose population labels stand in every string
+    relation to one another. Observed: validate_params' verdict, whether simulate_gt was entered, whether any
+    file was written, and the output_vcf call (breakpoints as handed over, shuffles recorded, output read back
+    with pysam) which is checked against C03's model and the no-reuse checker."""
+    name = "cli"
+    coq_module = "C14_CheckVcf"
+    coq_check = "check_cli"
+    coq_case_type = "ccase"
+    coq_model = "model_cli"
+    coq_imports = ["Tracts", "C01_Model", "C14_Model", "C03_Model", "C03_Check"]
+    budget = {"quick": 120, "thorough": 2000}
+    max_cases_per_shard = 30
+    anchors = [
+        ("haptools/sim_genotype.py", "validate_params"),
+        ("haptools/sim_genotype.py", "output_vcf"),
+        ("haptools/sim_genotype.py", "_convert_haplotype"),
+    ]   # (haptools/__main__.py::simgenotype is not in anchors.json; an unrecorded anchor would count as changed)
+    FRACS = {2: [("0.5", "0.5"), ("0.25", "0.75"), ("0.75", "0.25")],
+             3: [("0.5", "0.25", "0.25"), ("0.25", "0.25", "0.5"), ("0.125", "0.375", "0.5")]}
+    BP_GRID = [10, 20, 30, 50, 80, 100, 150, 200, 300]
+
+    def preamble(self):
+        return "Import C03_Check."
+
+    def one(self, rng):
+        r = rng.random
+        k = int(rng.integers(2, 4))
+        nother = int(rng.choice([0, 1, 1, 2]))
+        labels, kinds = gen_labels(rng, k, nother)
+        ns = int(rng.integers(1, 4))
+        norep = bool(r() < 0.9)
+        counts = [int(rng.choice([ns - 1, ns, ns, ns + 1, ns + 1])) for _ in range(k)]
+        if r() < 0.4:
+            counts = [max(ns, c) for c in counts]
+            counts[int(rng.integers(0, k))] = ns - 1      # the short population: first / middle / last
+        counts = [max(1, c) for c in counts] if r() < 0.95 else [max(0, c) for c in counts]
+        ocounts = [max(0, int(rng.choice([0, 1, ns, ns + 1]))) for _ in range(nother)]
+        own = [lab for lab, c in zip(labels, counts + ocounts) for _ in range(c)]
+        nref = max(2, len(own) + int(rng.choice([0, 0, 1])))
+        perm = [int(x) for x in rng.permutation(nref)]
+        info = [[perm[i], lab] for i, lab in enumerate(own)]
+        if r() < 0.7:
+            info = [info[i] for i in rng.permutation(len(info))]
+        nchr = int(rng.choice([1, 1, 2]))
+        chroms = sorted(int(c) for c in rng.choice([1, 2, 10, 22], size=nchr, replace=False))
+        maps, vars_ = {}, []
+        for c in chroms:
+            m = int(rng.integers(3, 7))
+            bps = sorted(int(x) for x in rng.choice(self.BP_GRID, size=m, replace=False))
+            cm, rows = 0.0, []
+            for b in bps:
+                rows.append([cm, b])
+                cm += float(rng.choice([5.0, 30.0, 60.0, 120.0]))
+            maps[str(c)] = rows
+            cand = sorted(set([b + dl for b in bps for dl in (-1, 0, 1)] + [5, 400]))
+            nv = int(rng.integers(1, 5))
+            for p in sorted(set(int(x) for x in rng.choice(cand, size=nv))):
+                vars_.append([False, c, p])
+        nv = len(vars_)
+        data = [[None] * nv for _ in range(nref)]
+        for vi in range(nv):          # one allele per reference haplotype, numbering rotated per variant
+            sh = int(rng.integers(0, 2 * nref))
+            for rr in range(nref):
+                data[rr][vi] = [(2 * rr + sh) % (2 * nref), (2 * rr + 1 + sh) % (2 * nref)]
+        nalleles = [2 * nref + int(rng.integers(0, 2)) for _ in range(nv)]
+        fr = self.FRACS[k][int(rng.integers(0, len(self.FRACS[k])))]
+        gens = ["1\t0\t" + "\t".join(fr)]
+        g = 1
+        for _ in range(int(rng.choice([0, 1, 1, 2]))):
+            g += int(rng.integers(1, 3))
+            gens.append(f"{g}\t1\t" + "\t".join(["0"] * k) if r() < 0.6 else f"{g}\t0.5\t" + "\t".join(
+                str(float(x) / 2) for x in fr))
+        return {
+            "ns": ns, "norep": norep, "pops": labels[:k], "info": info, "chroms": chroms, "maps": maps, "gens": gens,
+            "ref": {"nref": nref, "vars": vars_, "nalleles": nalleles, "data": data,
+                    "fmt": str(rng.choice(["vcf.gz", "vcf.gz", "bcf", "pgen"], p=[0.4, 0.3, 0.2, 0.1]))},
+            "seed": int(rng.integers(1, 2**31 - 1)), "popsize": int(rng.choice([2, 10, 25])),
+            "pop_field": bool(r() < 0.5), "sample_field": bool(r() < 0.5), "out": str(rng.choice(["vcf.gz", "vcf", "bcf"])),
+            "kinds": sorted(set(kinds) - {"base"}), "kind": "wellformed",
+        }
+
+    def generate(self, rng, n, tier):
+        return [self.one(rng) for _ in range(n)]
+
+    @staticmethod
+    def as_c03(inp, bps):
+        """the output_vcf call of the command as a C03 case"""
+        pops = ["Admixed"] + list(inp["pops"])
+        idx = {}
+        for i, p in enumerate(pops):
+            idx.setdefault(p, i)
+        return {"chroms": inp["chroms"], "npop": len(pops), "info": [[s_, idx.get(lab, len(pops))] for s_, lab in inp["info"]],
+                "ref": inp["ref"], "bps": bps or [], "region": None, "pop_field": inp["pop_field"],
+                "sample_field": inp["sample_field"], "norep": inp["norep"], "out": inp["out"]}
+
+    def run_impl(self, inp):
+        import shutil
+        import tempfile
+
+        from click.testing import CliRunner
+
+        import haptools.sim_genotype as sg
+        from haptools.__main__ import main
+        from . import c03
+
+        d = tempfile.mkdtemp(prefix="hv_c14c_")
+        st = {"val": None, "sim": False, "wbp": False, "out_called": False, "bps": None, "draws": None, "out_err": None}
+        saved = (sg.validate_params, sg.simulate_gt, sg.write_breakpoints, sg.output_vcf)
+        try:
+            panel, recs = c03.write_panel(inp, d)
+            pops = ["Admixed"] + list(inp["pops"])
+            model = os.path.join(d, "model.dat")
+            with open(model, "w") as f:
+                f.write(f"{inp['ns']}\t" + "\t".join(pops) + "\n" + "".join(g + "\n" for g in inp["gens"]))
+            info = os.path.join(d, "info.tab")
+            with open(info, "w") as f:
+                for s_, lab in inp["info"]:
+                    f.write(f"R{s_}\t{lab}\n")
+            mapdir = os.path.join(d, "map")
+            os.makedirs(mapdir)
+            for c, rows in inp["maps"].items():
+                with open(os.path.join(mapdir, f"g.chr{c03.chrom_str(int(c))}.map"), "w") as f:
+                    for j, (cm, bp) in enumerate(rows):
+                        f.write(f"{c03.chrom_str(int(c))}\tm{j}\t{cm}\t{bp}\n")
+            out = os.path.join(d, "out." + inp["out"])
+
+            def val(*a, **kw):
+                try:
+                    res = saved[0](*a, **kw)
+                except Exception as e:  # noqa
+                    st["val"] = classify_error(e)
+                    raise
+                st["val"] = {"cls": 0, "pop": None}
+                return res
+
+            def sim(*a, **kw):
+                st["sim"] = True
+                return saved[1](*a, **kw)
+
+            def wbp(*a, **kw):
+                st["wbp"] = True
+                return saved[2](*a, **kw)
+
+            def outv(breakpoints, *a, **kw):
+                st["out_called"] = True
+                st["bps"] = [[[int(t.get_pop()), int(t.get_chrom()), int(t.get_end_coord()), float(t.get_end_pos())]
+                              for t in hap] for hap in breakpoints]
+                rec = c03.DrawRecorder()
+                try:
+                    try:
+                        return saved[3](breakpoints, *a, **kw)
+                    except Exception as e:  # noqa
+                        st["out_err"] = {"err": err_kind(e), "cls": type(e).__name__, "msg": str(e)[:200]}
+                        raise
+                finally:
+                    rec.close()
+                    st["draws"] = shuffle_draws(rec, inp["ref"]["nref"])
+
+            sg.validate_params, sg.simulate_gt, sg.write_breakpoints, sg.output_vcf = val, sim, wbp, outv
+            args = ["simgenotype", "--model", model, "--mapdir", mapdir, "--chroms",
+                    ",".join(c03.chrom_str(c) for c in inp["chroms"]), "--ref_vcf", panel, "--sample_info", info,
+                    "--out", out, "--seed", str(inp["seed"]), "--popsize", str(inp["popsize"]), "--verbosity", "CRITICAL"]
+            for flag in ("pop_field", "sample_field"):
+                if inp[flag]:
+                    args.append("--" + flag)
+            if inp["norep"]:
+                args.append("--no_replacement")
+            try:
+                result = CliRunner().invoke(main, args)
+            finally:
+                sg.validate_params, sg.simulate_gt, sg.write_breakpoints, sg.output_vcf = saved
+            obs = {"val": st["val"], "sim": st["sim"], "exit": int(result.exit_code),
+                   "exc": None if result.exception is None else f"{type(result.exception).__name__}: {result.exception}"[:200],
+                   "wrote": sorted(fn for fn in os.listdir(d) if fn.startswith("out."))}
+            if st["out_called"]:
+                obs["bps"] = st["bps"]
+                if st["out_err"] is not None:
+                    obs["ocall"] = {"failed": st["out_err"], "draws": st["draws"]}
+                elif os.path.exists(out):
+                    obs["ocall"] = {"out": c03.read_output(out, self.as_c03(inp, st["bps"]), recs, pops), "draws": st["draws"]}
+                else:
+                    obs["ocall"] = {"failed": {"err": 97, "cls": "NoOutputFile", "msg": ""}, "draws": st["draws"]}
+            return obs
+        finally:
+            sg.validate_params, sg.simulate_gt, sg.write_breakpoints, sg.output_vcf = saved
+            shutil.rmtree(d, ignore_errors=True)
+
+    def encode(self, inp, obs):
+        from . import c03
+
+        names = [f"R{i}" for i in range(inp["ref"]["nref"])]
+        rows = [[f"R{s_}", lab] for s_, lab in inp["info"]]
+        observed = isinstance(obs, dict) and "sim" in obs
+        pc = pcase_term(inp["ns"], inp["norep"], inp["pops"], rows, names, obs.get("val") if observed else None)
+        if not observed:
+            return f"(mkc {pc} false false None)"
+        o = "None"
+        if "ocall" in obs:
+            ci = self.as_c03(inp, obs["bps"])
+            o = f"(Some (C03_Check.mko {c03.config_term(ci, obs['ocall']['draws'])} {c03.obs_term(ci, obs['ocall'])}))"
+        return f"(mkc {pc} {L.b(obs['sim'])} {L.b(bool(obs['wrote']))} {o})"
+
+    @staticmethod
+    def _rows(inp):
+        return [[f"R{s_}", lab] for s_, lab in inp["info"]]
+
+    def _short(self, inp):
+        return inp["norep"] and any(c < inp["ns"] for c in info_counts(inp["pops"], self._rows(inp)))
+
+    def nontrivial(self, inp, obs):
+        near = any(c in (inp["ns"] - 1, inp["ns"]) for c in info_counts(inp["pops"], self._rows(inp)))
+        return bool(inp["norep"] and near)
+
+    def classes(self, inp, obs):
+        rows = self._rows(inp)
+        out = ["norep" if inp["norep"] else "replacement", "ref=" + inp["ref"]["fmt"], "out=" + inp["out"],
+               f"chroms={len(inp['chroms'])}", f"gens={len(inp['gens'])}"]
+        out += ["labels:" + x for x in sorted(Params._pair_relations({"pops": inp["pops"], "info": rows}))]
+        if inp["norep"]:
+            out += ["short-population-" + w for w in sorted(deficient_positions(inp["ns"], inp["pops"], rows))]
+            if covered_by_containing_label(inp["ns"], inp["pops"], rows):
+                out.append("short-but-containing-labels-suffice")
+        if isinstance(obs, dict) and "sim" in obs:
+            out.append(f"verdict-{(obs.get('val') or {}).get('cls')}")
+            if obs["sim"]:
+                out.append("simulated")
+            oc = obs.get("ocall")
+            if oc and "out" in oc:
+                out.append("completed")
+                if any(len([t for t in hap if t[1] == c]) > 1 for hap in obs["bps"] for c in inp["chroms"]):
+                    out.append("several-blocks-on-a-chromosome")
+            elif oc:
+                out.append("output_vcf-raised:" + ("no-available-sample" if "No available sample" in oc["failed"].get("msg", "")
+                                                   else oc["failed"].get("cls", "?")))
+        return out
+
+    def shrink(self, inp):
+        if len(inp["gens"]) > 1:
+            yield dict(inp, gens=inp["gens"][:-1])
+        unused = sorted(set(lab for _, lab in inp["info"]) - set(inp["pops"]))
+        for u in unused:
+            yield dict(inp, info=[x for x in inp["info"] if x[1] != u])
+        ref = inp["ref"]
+        for vi in range(len(ref["vars"])):
+            if len(ref["vars"]) > 1:
+                yield dict(inp, ref=dict(ref, vars=ref["vars"][:vi] + ref["vars"][vi + 1:],
+                                         nalleles=ref["nalleles"][:vi] + ref["nalleles"][vi + 1:],
+                                         data=[row[:vi] + row[vi + 1:] for row in ref["data"]]))
+        if len(inp["chroms"]) > 1:
+            for j, c in enumerate(inp["chroms"]):
+                if any(v[1] != c for v in ref["vars"]):
+                    keep = [vi for vi, v in enumerate(ref["vars"]) if v[1] != c]
+                    yield dict(inp, chroms=inp["chroms"][:j] + inp["chroms"][j + 1:],
+                               maps={kk: vv for kk, vv in inp["maps"].items() if kk != str(c)},
+                               ref=dict(ref, vars=[ref["vars"][vi] for vi in keep], nalleles=[ref["nalleles"][vi] for vi in keep],
+                                        data=[[row[vi] for vi in keep] for row in ref["data"]]))
+        for f in ("pop_field", "sample_field"):
+            if inp[f]:
+                yield dict(inp, **{f: False})
+        if inp["out"] != "vcf":
+            yield dict(inp, out="vcf")
+        if ref["fmt"] != "vcf.gz":
+            yield dict(inp, ref=dict(ref, fmt="vcf.gz"))
+        for j in range(len(inp["info"])):
+            yield dict(inp, info=inp["info"][:j] + inp["info"][j + 1:])
+
+    def mutate(self, inp, rng):
+        for _ in range(3):
+            yield dict(inp, seed=int(rng.integers(1, 2**31 - 1)))
+        rows = self._rows(inp)
+        for p in inp["pops"]:
+            lines = [x for x in inp["info"] if x[1] == p]
+            if len(lines) >= inp["ns"]:
+                drop = set(x[0] for x in lines[inp["ns"] - 1:])
+                yield dict(inp, norep=True, info=[x for x in inp["info"] if x[0] not in drop])
+
+    def signature(self, inp, obs):
+        if not isinstance(obs, dict) or "sim" not in obs:
+            return "cli command not observed"
+        if self._short(inp) and (obs["sim"] or obs["wrote"] or (obs.get("val") or {}).get("cls") == 0):
+            return ("cli simgenotype --no_replacement passes validation with fewer samples in a population than "
+                    "simulated samples")
+        if (obs.get("val") or {}).get("cls") == 3 and not self._short(inp):
+            return "cli validate_params reports too few samples for a panel that has enough in every population"
+        oc = obs.get("ocall")
+        if oc and "out" in oc:
+            o = oc["out"]
+            for j in range(len(o["vars"])):
+                col = [row[j] for row in o["gt"]]
+                if len(set(col)) < len(col):
+                    return "cli one reference haplotype copied into two simulated haplotypes at a variant"
+        return "cli observation differs from the model (no clause of the property broken)"
 
 
 class TVKernel(Kernel):
@@ -482,7 +1195,7 @@ class TVKernel(Kernel):
 
 
 
-RELATIONS = [Kernel(), Norep(), Params(), TVKernel()]
+RELATIONS = [Kernel(), Norep(), Params(), Cli(), TVKernel()]
 
 LEVEL_TEXT = (
     "Coq theorems over all histories of _find_coord/_find_random_sample calls and all shuffles (no size bound) about a "
@@ -492,7 +1205,9 @@ LEVEL_TEXT = (
 )
 LEVEL_NOTE = (
     "Trusted: Coq kernel/vm_compute; the hand-written model (validated only differentially); recorded numpy shuffles are "
-    "inputs (universally quantified in the theorems). validate_params' per-population count check is exercised by the "
-    "params relation and modelled in C20."
+    "inputs (universally quantified in the theorems). validate_params' sample-info checks are modelled here over "
+    "interned labels (count by label equality; theorems C14_params_*: rejected iff some population has fewer lines with "
+    "exactly its label than simulated samples, for all tables and label sets) and at character level in C20; the other "
+    "checks of validate_params are C20's."
 )
 TECHNIQUE = "Coq proof of an interval-disjointness invariant by induction over call histories + vm_compute-evaluated correspondence"
